@@ -107,3 +107,23 @@ M("C02", "setting-struct-le", "beacon.py", "cs_struct = cstruct.cstruct(endian=\
 T("C02", "twin-dict-acc", "beacon.py", "        settings = OrderedDict()\n        for setting in self.settings_tuple:", "        settings = dict()\n        for setting in self.settings_tuple:")
 T("C02", "twin-unpack-direct", "beacon.py", "                    val = u16be(val)", "                    val = unpack(val, size=2, byteorder=\"big\")",
   edits=[("beacon.py", "    u16be,\n    u32,", "    u16be,\n    unpack,\n    u32,"), ("beacon.py", "                    val = u16be(val)", "                    val = unpack(val, size=2, byteorder=\"big\")")])
+
+# =============================================================================== C03
+M("C03", "opcode-renumber", "beacon.py", "    NETBIOSU = 11,\n    URI_APPEND = 12,", "    NETBIOSU = 12,\n    URI_APPEND = 11,", "C03.R1")
+M("C03", "mask-takes-arg", "beacon.py", "        TransformStep.PRINT,\n        TransformStep.MASK,\n    ]\n    ARGUMENT_STEPS = [", "        TransformStep.PRINT,\n    ]\n    ARGUMENT_STEPS = [\n        TransformStep.MASK,", "C03.R2")
+M("C03", "postreq-default-build", "beacon.py", "    BeaconSetting.SETTING_C2_POSTREQ: functools.partial(parse_transform_binary, build=\"id\"),", "    BeaconSetting.SETTING_C2_POSTREQ: parse_transform_binary,", "C03.R2")
+M("C03", "build-map-swapped", "beacon.py", "    BUILD_MAP = {0: build, 1: \"output\"}", "    BUILD_MAP = {1: build, 0: \"output\"}", "C03.R2")
+M("C03", "length-le", "beacon.py", "            length = u32be(p.read(4))\n            arg = p.read(length)", "            length = u32(p.read(4))\n            arg = p.read(length)", "C03.R")
+M("C03", "arg-fixed-len", "beacon.py", "            length = u32be(p.read(4))\n            arg = p.read(length)", "            length = u32be(p.read(4))\n            arg = p.read(4)", "C03.R2")
+M("C03", "netbiosu-as-netbios", "beacon.py", "            rsteps.append((\"netbiosu\", True))", "            rsteps.append((\"netbios\", True))", "C03.R4")
+M("C03", "recover-drops-mask", "beacon.py", "        elif step == TransformStep.MASK:\n            rsteps.append((\"mask\", True))\n", "", "C03.R4")
+M("C03", "append-length-true", "beacon.py", "            rsteps.append((\"append\", length))", "            rsteps.append((\"append\", True))", "C03.R4")
+M("C03", "core-misses-api", "beacon.py", "        \"VirtualQuery\",\n        \"DuplicateHandle\",", "        \"DuplicateHandle\",", "C03.R5")
+M("C03", "comms-before-all", "beacon.py", "    if options.issuperset(comms | core | cleanup):\n        ret.append(\"All\")\n        options -= comms | core | cleanup\n\n    if options.issuperset(comms):\n        ret.append(\"Comms\")\n        options -= comms\n",
+  "    if options.issuperset(comms):\n        ret.append(\"Comms\")\n        options -= comms\n\n    if options.issuperset(comms | core | cleanup):\n        ret.append(\"All\")\n        options -= comms | core | cleanup\n", "C03.R5")
+M("C03", "values-attr-regression", "beacon.py", "    options = {name for name in comms | core | cleanup if getattr(bgo, name)}", "    options = {k for k, v in bgo._values.items() if v}", "C03.R6")
+M("C03", "x64-transform-other-decoder", "beacon.py", "    BeaconSetting.SETTING_PROCINJ_TRANSFORM_X64: parse_process_injection_transform_steps,", "    BeaconSetting.SETTING_PROCINJ_TRANSFORM_X64: parse_recover_binary,", "C03.R7")
+M("C03", "uris-from-even", "beacon.py", "        return list(dict.fromkeys(uri for (_domain, uri) in self.domain_uri_pairs))", "        return list(dict.fromkeys(_domain for (_domain, uri) in self.domain_uri_pairs))", "C03.R8")
+M("C03", "port-reads-proto", "beacon.py", "        return self.raw_settings.get(\"SETTING_PORT\", None)", "        return self.raw_settings.get(\"SETTING_PROTOCOL\", None)", "C03.R8")
+T("C03", "twin-steps-as-sets", "beacon.py", "        TransformStep.PRINT,\n        TransformStep.MASK,\n    ]", "        TransformStep.MASK,\n        TransformStep.PRINT,\n    ]")
+T("C03", "twin-options-by-index", "beacon.py", "    options = {name for name in comms | core | cleanup if getattr(bgo, name)}", "    options = {name for name in (comms | core | cleanup) if bgo[name]}")
